@@ -48,6 +48,9 @@ def translate(ctx):
 
 # ----------------------------------------------------------------------------- case text
 def case_line(c):
+    if c["topic"] == "hist":
+        return ("hist N=%d D=%d d=%d k=%d seed=%d ops=%s data=%s"
+                % (c["N"], c["D"], c["d"], c["k"], c["seed"], ",".join(c["ops"]), sp.mat_text(c["rows"]))) + sp.decoy_fields(c)
     if c["topic"] == "empty":
         return ("empty method=%s N=%d D=%d d=%d k=%d seed=%d data=%s"
                 % (c["method"], c["N"], c["D"], c["d"], c["k"], c["seed"], sp.mat_text(c["rows"]))) + sp.decoy_fields(c)
@@ -60,9 +63,11 @@ def case_line(c):
 def parse_case(line):
     f = sp.fields(line)
     rows = [[Fraction(v) for v in r.split(",")] for r in f["data"].split(";")]
-    c = {"topic": line.split(" ", 1)[0], "method": f["method"], "N": int(f["N"]), "D": int(f["D"]), "d": int(f["d"]),
+    c = {"topic": line.split(" ", 1)[0], "method": f.get("method", "history"), "N": int(f["N"]), "D": int(f["D"]), "d": int(f["d"]),
          "k": int(f.get("k", "5")), "seed": int(f.get("seed", "1")), "rows": rows, "label": "replay"}
     sp.parse_decoys(f, c)
+    if c["topic"] == "hist":
+        c["ops"] = f["ops"].split(",")
     if c["topic"] == "proj":
         c["exact"] = f.get("exact") == "1"
         c["q"] = [] if f.get("q", "-") == "-" else [[Fraction(v) for v in r.split(",")] for r in f["q"].split(";")]
@@ -76,6 +81,27 @@ def parse_case(line):
         while len(c["combs"]) < len(c["q"]):
             c["combs"].append(None)
     return c
+
+
+def judge_hist(c, io, v):
+    """ONE TapkeeOutput variable reused across a sequence of embed calls: after every assignment the projection must be
+    present iff the LAST method projects (also in a copy-constructed snapshot) and projection(x_i) must be row i of the
+    LAST embedding, bitwise"""
+    blocks = io.split(" | ")[1:]
+    if len(blocks) != len(c["ops"]):
+        v["bad"].append(("history", "steps-missing"))
+        return
+    for n, (op, b) in enumerate(zip(c["ops"], blocks)):
+        m, kind = op.split(":")
+        f = sp.fields(b)
+        expect = "1" if m in PROJECTING else "0"
+        if f.get("has") != expect or f.get("shas") != expect:
+            what = "stale-projection-of-an-earlier-method-kept" if expect == "0" else "projection-lost"
+            v["bad"].append(("history", "%s-after-%s-assignment" % (what, kind)))
+            return
+        if expect == "1" and not sp.has_nonfinite(b) and f.get("T") != f.get("Y"):
+            v["bad"].append(("history", "projection-is-not-the-last-embedding-after-%s-assignment" % kind))
+            return
 
 
 def valid_request(c):
@@ -128,6 +154,9 @@ def judge(ctx, binary, cases):
         if io.startswith("throw:"):
             # `empty` topic: fixed benign parameters (d = 2 <= D = 3, k = 7 < N) on generic data: nothing may throw
             v["bad"].append(("impl", io))
+            continue
+        if c["topic"] == "hist":
+            judge_hist(c, io, v)
             continue
         f = sp.fields(io)
         if c["topic"] == "empty":
@@ -206,6 +235,8 @@ def subcase(c, keep):
 
 def shrink(ctx, binary, c, sig, budget=30):
     lo = 5 if c["method"] not in ("pca", "rp", "passthru", "mds", "kpca", "fa") else 2
+    if c["topic"] == "hist":
+        lo = 9
 
     def failing(keep):
         if len(keep) < max(lo, c["d"] + 1):
@@ -222,6 +253,7 @@ WHAT = {
     "pure": "the projection function is not a pure function of its argument (results of earlier applications are "
             "disturbed by later ones / several applications in one expression interfere)",
     "has": "projection presence is wrong for the method",
+    "history": "a TapkeeOutput variable reused across embed calls does not hold the LAST call's projection state",
     "validate": "parameter validation is wrong: d > D not rejected with wrong_parameter_error, or a valid request rejected",
     "finite": "the returned projection matrix / embedding is not finite on non-degenerate data",
     "impl": "the implementation aborted / threw",
@@ -357,6 +389,23 @@ def gen_cases(ctx, quick):
                           "seed": r.range(1, 10 ** 6), "rows": rows})
             if decoy:
                 cases[-1]["all"], cases[-1]["sel"] = decoy
+    # history leg: ONE TapkeeOutput variable across a seeded sequence of embed calls, projecting <-> non-projecting methods,
+    # copy-assignment / move-assignment / copy-construction
+    nonproj = ["mds", "kpca", "isomap", "passthru", "fa", "la"]
+    for rnd in range(3 if quick else 30):
+        N = r.range(10, 14)
+        D = 3
+        rows = [[Fraction(v) for v in row] for row in sp.low_rank_points(r, N, D, D, amp=3)]
+        ops = []
+        for t in range(r.range(6, 9)):
+            pool = PROJECTING if (t + rnd) % 2 == 0 else nonproj
+            if r.chance(1, 5):
+                pool = PROJECTING + nonproj
+            ops.append("%s:%s" % (r.choice(pool), r.choice(["copy", "move", "cctor"])))
+        cases.append({"topic": "hist", "label": "history", "method": "history", "N": N, "D": D, "d": 2, "k": 6,
+                      "seed": r.range(1, 10 ** 6), "rows": rows, "ops": ops})
+        if rnd % 2:
+            cases[-1]["all"], cases[-1]["sel"] = sp.with_decoys_points(r, rows)
     # target dimension beyond the feature dimension (validated against N only): F-DIM-RANK probe
     for m in PROJECTING:
         N, D = 10, 3
@@ -415,7 +464,9 @@ def correspond(ctx):
                        "(P, mean), affinity on exact convex / affine combinations — also with a*f(x_i)+(1-a)*f(x_j) "
                        "evaluated by the implementation in ONE expression, an earlier result held by reference across a "
                        "later application, and f(x)-f(y); all 20 methods: presence of a projection "
-                       "object vs the generated table; d > D probes; non-trivial = N >= 4; distinct by case text"
+                       "object vs the generated table; a history leg (ONE TapkeeOutput variable reused across 6-8 embed calls, "
+                       "projecting <-> non-projecting, copy / move assignment and copy construction: projection present iff the "
+                       "LAST method projects, and equal to the LAST embedding); d > D probes; non-trivial = N >= 4; distinct by case text"
                        % (32 if quick else 64))
     ctx.assumptions += [
         "harness compiled at -O0 -g1 (ASan+UBSan on) instead of -O1 -g: the all-methods translation unit needs 2-3 min and "
